@@ -857,7 +857,96 @@ def run(chk, p, t):
 
         C04.rule_r10(chk, p, t, rid="C02.R11", parts=("measurement",))
 
-    steps = [("C02.R1", rule_r1), ("C02.R2", rule_isvisible), ("C02.R5", rule_r5), ("C02.R6", rule_r6), ("C02.R7", rule_r7), ("C02.R8", rule_r8), ("C02.R11", rule_r11)]
+
+    def rule_r12(chk, p, t):
+        """'within the sensor's stated noise': the noise added to the true measurement has the stated covariance R."""
+        import ast as _ast
+
+        from rules.C06 import _factor_kind
+
+        r = chk.rule(
+            "C02.R12",
+            "measurement noise is drawn with the stated covariance",
+            2,
+            "Measurement.noise is F . (standard normal vector) with F the stored square-root of r_matrix, so F F^T must be R: "
+            "the setter stores a symmetric root (scipy.linalg.sqrtm) or the LOWER Cholesky factor (numpy.linalg.cholesky, "
+            "scipy.linalg.cholesky(lower=True)) of the validated self._r_matrix; the upper factor U gives noise of covariance "
+            "U U^T - equal to R only for a diagonal R. The standard-normal vector has the dimension of R and the noise is "
+            "added only when requested (R7)",
+            "the random numbers themselves",
+        )
+        M = p.cls("resonaate.physics.measurements.Measurement")
+        noise = M.methods.get("noise")
+        setter = p.lookup_setter(M, "r_matrix")
+        require(noise is not None and setter is not None, "Measurement.noise / r_matrix setter not found", M.node)
+
+        def one():
+            rets = [n for n in walk_no_nested(noise.node) if isinstance(n, _ast.Return) and n.value is not None]
+            require(len(rets) == 1, "Measurement.noise: single return expected", noise.node)
+            e = rets[0].value
+            ops = None
+            if isinstance(e, _ast.Call) and call_name(e) in ("matmul", "dot") and len(e.args) == 2:
+                ops = e.args
+            elif isinstance(e, _ast.BinOp) and isinstance(e.op, _ast.MatMult):
+                ops = [e.left, e.right]
+            elif isinstance(e, _ast.Call) and isinstance(e.func, _ast.Attribute) and e.func.attr == "dot" and len(e.args) == 1:
+                ops = [e.func.value, e.args[0]]
+            require(ops is not None, "Measurement.noise is not `factor . random vector`", rets[0])
+            fac, vec = ops
+            if not (isinstance(vec, _ast.Call) and call_name(vec) in ("randn", "standard_normal", "normal")):
+                fac, vec = vec, fac
+                if isinstance(vec, _ast.Call) and call_name(vec) in ("randn", "standard_normal", "normal"):
+                    # row vector times factor: v F has covariance F^T F - the transposed convention
+                    r.violation(noise.qualname, "noise-row-vector", f"the noise is `{unparse(e)[:70]}`: a random ROW vector times the factor has covariance F^T F, not F F^T", noise.loc(rets[0]))
+                    return None
+                raise Undecided("Measurement.noise: no standard-normal draw found in the product", rets[0])
+            transposed = False
+            while isinstance(fac, _ast.Attribute) and fac.attr == "T":
+                transposed, fac = not transposed, fac.value
+            require(isinstance(fac, _ast.Attribute) and isinstance(fac.value, _ast.Name) and fac.value.id == "self", "the noise factor is not a stored attribute", rets[0])
+            dim = unparse(vec.args[0]) if vec.args else (unparse(vec.keywords[0].value) if vec.keywords else "")
+            if "self._r_matrix.shape[0]" not in dim and "self.dim" not in dim and "len(self._measurements)" not in dim:
+                r.violation(noise.qualname + ":dim", f"noise-dim:{dim}", f"the standard-normal vector has dimension `{dim}`, not that of the noise matrix", noise.loc(rets[0]))
+            else:
+                r.ok(noise.qualname + ":dim", f"standard normal of dimension {dim}", noise.loc(rets[0]))
+            return fac.attr, transposed
+
+        got = []
+        r.guard(noise.qualname, lambda: got.append(one()))
+        if not got or got[0] is None:
+            return
+        attr, transposed = got[0]
+
+        def two():
+            asg = [n for n in walk_no_nested(setter.node) if isinstance(n, _ast.Assign) and unparse(n.targets[0]) == f"self.{attr}"]
+            require(len(asg) == 1, f"the r_matrix setter assigns self.{attr} not exactly once", setter.node)
+            v = asg[0].value
+            tr2 = transposed
+            while True:
+                if isinstance(v, _ast.Call) and call_name(v) in ("real", "asarray", "array") and len(v.args) == 1:
+                    v = v.args[0]
+                elif isinstance(v, _ast.Attribute) and v.attr == "T":
+                    tr2, v = not tr2, v.value
+                elif isinstance(v, _ast.Call) and call_name(v) == "transpose" and len(v.args) == 1:
+                    tr2, v = not tr2, v.args[0]
+                else:
+                    break
+            require(isinstance(v, _ast.Call) and v.args, f"self.{attr} is not the result of a square-root call", asg[0])
+            k = _factor_kind(setter.module, v)
+            arg_ok = unparse(v.args[0]) == "self._r_matrix"
+            cons = setter.qualname + ":factor"
+            if not arg_ok:
+                r.violation(cons, f"noise-factor-of:{unparse(v.args[0])[:40]}", f"the noise factor is the root of `{unparse(v.args[0])[:60]}`, not of the validated self._r_matrix", setter.loc(asg[0]))
+            elif k == "symmetric" or (k == "lower" and not tr2) or (k == "upper" and tr2):
+                r.ok(cons, f"`{unparse(asg[0].value)[:60]}`: F F^T = R", setter.loc(asg[0]))
+            elif k in ("upper", "lower"):
+                r.violation(cons, f"noise-factor:{k}:{transposed}", f"the stored noise factor `{unparse(asg[0].value)[:70]}` is the {k} Cholesky factor{' used transposed' if tr2 else ''}: Measurement.noise multiplies it onto a standard-normal vector, so the noise has covariance {'U U^T' if k == 'upper' else 'L^T L'} instead of the stated R - identical for a diagonal R, wrong variances and correlations for any correlated sensor covariance", setter.loc(asg[0]))
+            else:
+                r.undecided(cons, f"cannot tell which factor `{unparse(asg[0].value)[:60]}` is", setter.loc(asg[0]))
+
+        r.guard(setter.qualname, two)
+
+    steps = [("C02.R1", rule_r1), ("C02.R2", rule_isvisible), ("C02.R5", rule_r5), ("C02.R6", rule_r6), ("C02.R7", rule_r7), ("C02.R8", rule_r8), ("C02.R11", rule_r11), ("C02.R12", rule_r12)]
     for rid, fn in steps:
         if chk.only_rule is not None and chk.only_rule not in (rid, "C02.R3", "C02.R4") and not (rid == "C02.R8" and chk.only_rule in ("C02.R9", "C02.R10")):
             continue
